@@ -158,6 +158,13 @@ def random_call(rng, names, star_bias=0.5):
         args += ["k:" + k for k in kws]
     if rng.random() < star_bias * 0.6:
         args.append("D")
+    if rng.random() < 0.35:
+        # Python allows explicit keywords, ** literals and **d in any relative order (f(**{"a": 1}, a=2) is valid
+        # syntax and raises TypeError at run time): the order must not matter to the verdict
+        head = [a for a in args if a == "p" or a == "S" or (a[0] == "s" and a != "S")]
+        tail = [a for a in args if a not in head]
+        rng.shuffle(tail)
+        args = head + tail
     return tuple(args)
 
 
@@ -326,6 +333,16 @@ def gen_cases(ctx):
         ctx.rng.shuffle(cases)
         cases = cases[:cap]
         ctx.extra["exhaustive_part"] += "; sampled down to %d by the seed" % cap
+    # duplicate-keyword family: the same name supplied twice through {explicit keyword, ** literal} in both orders,
+    # on a few fixed headers (CPython: TypeError "multiple values for keyword argument" whatever the callee)
+    dup_sigs = [(("a", "pk", 0),), (("a", "pk", 0), ("b", "pk", 1)), (("k", "vk", 0),), (("a", "po", 0), ("k", "vk", 0)),
+                (("a", "pk", 0), ("c", "ko", 1))]
+    for ps in dup_sigs:
+        for n in [p[0] for p in ps if p[1] not in ("vp", "vk")] + ["z"]:
+            for pre in ((), ("p",)):
+                for tail in (("d:" + n, "k:" + n), ("k:" + n, "d:" + n), ("d:" + n, "d:" + n), ("d:" + n + ",y", "k:y"),
+                             ("d:" + n, "k:" + n, "D"), ("D", "d:" + n, "k:" + n)):
+                    cases.append((ps, pre + tail))
     nrand = ctx.n(3000, 40000)
     for _ in range(nrand):
         ps = ctx.rng.choice(sigs) if ctx.rng.random() < 0.5 else random_sig(ctx.rng)
